@@ -109,6 +109,14 @@ def sensor_value(s, raw):
     return value
 
 
+def sensor_states(states):
+    """Assertion states of a sensor; 'na' while the sensor has none to report
+    (reading/state unavailable)."""
+    if states is None:
+        return 'na'
+    return '0x%x' % states
+
+
 def sdr_show(ipmi, s):
 
     print("SDR record ID:    0x%04x" % s.id)
@@ -128,7 +136,7 @@ def sdr_show(ipmi, s):
         t_lcr = sensor_value(s, s.threshold['lcr'])
         t_lnr = sensor_value(s, s.threshold['lnr'])
         print("Reading value:    %s" % value)
-        print("Reading state:    0x%x" % states)
+        print("Reading state:    %s" % sensor_states(states))
         print("UNR:              %s" % t_unr)
         print("UCR:              %s" % t_ucr)
         print("UNC:              %s" % t_unc)
@@ -138,7 +146,7 @@ def sdr_show(ipmi, s):
     elif s.type is pyipmi.sdr.SDR_TYPE_COMPACT_SENSOR_RECORD:
         (raw, states) = ipmi.get_sensor_reading(s.number)
         print("Reading:          %s" % raw)
-        print("Reading state:    0x%x" % states)
+        print("Reading state:    %s" % sensor_states(states))
 
 
 def cmd_sdr_show_raw(ipmi, args):
